@@ -266,6 +266,11 @@ func (sw *SingleAddressWallet) SpendableOutputs() ([]types.SiacoinElement, error
 			inPool[sci.ParentID] = true
 		}
 	}
+	for _, txn := range sw.cm.V2PoolTransactions() {
+		for _, sci := range txn.SiacoinInputs {
+			inPool[sci.Parent.ID] = true
+		}
+	}
 
 	// filter outputs that are either locked, in the pool or have not yet matured
 	unspent := utxos[:0]
